@@ -61,3 +61,10 @@ Fixpoint freplay_tree (n : nat) (st : fst_) (tr : fotree) : bool :=
 
 Definition chk_fl_tree (c : nat * fstate * list (list acq) * list fotree) : bool :=
   let '(n, f0, progs, trs) := c in forallb (freplay_tree n (finit progs f0)) trs.
+
+(* with_write runs: (what happened, actions observed on the real _FileWriteWith
+   in order, an exception left the with-statement, lock file afterwards) *)
+Definition chk_ww (c : wrun * list wact * bool * fstate) : bool :=
+  let '(r, acts, raised, f) := c in
+  eqb_list wact_eqb (ww_exit r) acts && Bool.eqb (ww_raises r) raised
+  && fstate_eqb (ww_file_after r) f.
